@@ -171,7 +171,7 @@ func Enumerate(f *Family, sc *work.Scratch, devs []string, tier string) ([]*Unit
 			rng := rand.New(rand.NewSource(seedOf() + int64(len(x.Module))))
 			var keep []*Unit
 			for _, u := range us {
-				if rng.Float64() < frac {
+				if k, _ := u.Raw["keep"].(bool); k || rng.Float64() < frac {
 					keep = append(keep, u)
 				}
 			}
